@@ -18,7 +18,7 @@ func init() {
 			"that the unlock end time is block time + duration; that matured-unlock is guarded by the unlocking flag and the end-time comparison against block time and pays the lock owner; that owner guards precede every mutation.",
 		NotCovered:  []string{"index = primary records for every query shape over histories", "sum-tree internals (C16)", "conservation of owner balance + locked as a number"},
 		Assumptions: []string{"bank keeper and KV store are the effect primitives", "an error exit of a message reverts its store branch (SDK)"},
-		MinObl:      125,
+		MinObl:      128,
 		Run:         runC06,
 	})
 }
@@ -164,6 +164,7 @@ func runC06(c *rules.Ctx) {
 	c.CallArg(MS+"ExtendLockup", "lockupkeeper.Keeper.ExtendLockup", 2, "msg.ID", "on the message's lock")
 	c.CallArg(MS+"SetRewardReceiverAddress", "lockupkeeper.Keeper.SetLockRewardReceiverAddress", 3, "sdk.AccAddressFromBech32(msg.Owner)#0", "the actor passed is the message's signer")
 	c.FailsWhen(K+"SetLockRewardReceiverAddress", "ne({LOCKBYID}.Owner, sdk.AccAddress.String(owner))", "only the owner may redirect rewards", rules.GuardOpt{Before: "lockupkeeper.Keeper.setLock"})
+	lockupForceUnlockRules(c)
 	lockupKeyRules(c)
 	lockupGenesisAccumulationRules(c)
 	// ---- readers and writers of the reference indexes agree on the key layout ------------------------------------
